@@ -21,7 +21,7 @@ from .builder_engine import Engine, Case, parse_reply
 def gen_cases(E, ctx):
     rng = ctx.rng
     cases = []
-    n_main = 260 if not ctx.thorough else 2500
+    n_main = 260 if not ctx.thorough else 10000
     for s in E.corpus:
         if s.name not in E.BC: continue
         for i in range(n_main):
@@ -69,17 +69,11 @@ def check_case_oracles(E, ctx, cases):
         exp = bu.render_dec(c.schema, c.node)
         ctx.count(line, klass='oracle-spec-decode')
         kind = ('struct-root' if c.root in c.schema.structs else 'table-root') + ('-with-size' if c.opts['with_size'] else '')
-        if bu.has_sized_nested(c.node): kind = 'nested-with-size'     # flatcc's documented size-prefixed nested layout (aligned to the length field)
+        sized_aligned = bu.has_sized_nested_aligned(c.schema, c.node)   # nested + with_size + content alignment above 4
         lst = per_case.get(id(c), [])
         rej = [x for x in lst if x[1] and not x[3].startswith('0 ')]
         base = {'harness_line': c.h, 'model_line': c.m, 'schema': c.schema.name, 'root': c.root, 'opts': str(c.opts),
                 'buffer_hex': c.himpl['bytes'], 'dec_line': line, 'reported_alignment': c.himpl['align']}
-        ba = c.opts['block_align']
-        if ba > 1 and len(c.himpl['raw']) % ba:
-            flagged.add(id(c))
-            ctx.violation('size-not-block-multiple',
-                          'buffer finished with block_align %d has size %d, not a multiple (flatcc_builder.h: "the total size is zero padded to fill a block multiple")'
-                          % (ba, len(c.himpl['raw'])), base)
         if r == 'NONE' or r.startswith('EXC'):
             flagged.add(id(c))
             if rej:
@@ -109,7 +103,11 @@ def check_case_oracles(E, ctx, cases):
             by.setdefault((expect, '_'.join(vr.split()[1:]) or 'ok'), []).append((vline, label, vr))
         for (expect, err), l in by.items():
             flagged.add(id(c))
-            ctx.violation('verifier-%s:%s:%s' % ('rejects' if expect else 'accepts', kind, err),
+            # known finding: the verifier tests vector / struct alignment relative to the nested data start and so rejects the
+            # builder's documented size-prefixed nested layout when its content is aligned above 4
+            sized_key = expect and sized_aligned and err in ('vector_header_out_of_range_or_unaligned', 'struct_unaligned')
+            ctx.violation('verifier-rejects:nested-with-size:' + err if sized_key else
+                          'verifier-%s:%s:%s' % ('rejects' if expect else 'accepts', kind, err),
                           'generated verify variant(s) %s %s a well-formed buffer finished by the builder (%s, identifier %s): %s' % (
                               ', '.join(x[1] for x in l), 'reject' if expect else 'accept', kind, c.opts['ident'], l[0][2]),
                           dict(base, verify_line=l[0][0]))
@@ -145,21 +143,12 @@ def run(ctx):
     ok = ctx.check_theorems()
     if not ok:
         ctx.broken_obligation('Properties_C02.vo', getattr(ctx, 'broken', {}))
-    E = Engine(ctx)
+    E = Engine(ctx, with_gen_api=bool(ctx.replay_in))
     rng = ctx.rng
 
     if ctx.replay_in:
-        rep = json.load(open(ctx.replay_in))
-        s = E.by_name.get(rep.get('schema'), E.corpus[0])
-        hl, ml = rep.get('harness_line'), rep.get('model_line')
-        res = lib.run_harness_resilient(E.H, [hl])
-        ctx.log('replay harness:', res[0][:600])
-        if ml:
-            m = ctx.run_model('builder', [ml]); ctx.log('replay model  :', m[0][:600])
-            if res[0] != m[0]:
-                ctx.violation(rep.get('key', 'replay'), 'replayed input still fails: implementation and (corrected) model differ', rep)
-        if res[0].startswith('CRASH') or res[0].startswith('FAIL'):
-            ctx.violation(rep.get('key', 'replay'), 'replayed input still fails: ' + res[0][:300], rep)
+        from .builder_engine import replay
+        replay(E, ctx)
         return
 
     cases = gen_cases(E, ctx)
@@ -183,7 +172,7 @@ def run(ctx):
 
     # ---- converse clause: an independent encoder's buffers must be accepted by the C verifier and by the decoder
     items, meta, dec_lines, dec_meta = [], [], [], []
-    n_ind = 60 if not ctx.thorough else 600
+    n_ind = 60 if not ctx.thorough else 3000
     for s in E.corpus:
         if s.name not in E.BC: continue
         for i in range(n_ind):
